@@ -12,14 +12,18 @@ def sh(cmd, timeout=1800):
     p = subprocess.run(cmd, shell=True, cwd=wt, env=env, stdout=subprocess.PIPE, stderr=subprocess.STDOUT, timeout=timeout)
     return p.returncode, p.stdout.decode('utf-8', 'replace')
 run = open(os.path.join(src, 'RUN.txt')).read().strip().split('#')[0].strip().replace('<outdir>', os.path.dirname(src.rstrip('/')))
+run = re.sub(r'^From the worktree root:\s*', '', run)
+run = re.sub(r'\s{2,}\([^()]*\)\s*$', '', run)
 log = {}
 sh('git checkout -- . && git clean -fdq')
 rc, out = sh('git apply --check %s/patch.diff && git apply %s/patch.diff && go build ./... ' % (src, src)); log['apply_build_rc'] = rc
 rc1, out1 = sh(run, 900); log['demo_with_change_rc'] = rc1; log['demo_with_change_tail'] = out1[-600:]
 if suite:
+    sh('git clean -fdq')   # the demonstration itself is not part of the existing suite
     rcs, outs = sh('go test -vet=off -count=1 -timeout 25m ./leveldb/... 2>&1 | tail -15', 2400); log['suite_with_change'] = outs[-900:]
     log['suite_with_change_ok'] = ('FAIL' not in outs)
 sh('git apply -R %s/patch.diff' % src)
+suite_done = True
 rc2, out2 = sh(run, 900); log['demo_without_change_rc'] = rc2; log['demo_without_change_tail'] = out2[-300:]
 sh('git checkout -- . && git clean -fdq')
 dst = os.path.join('/verif/seeded', name)
